@@ -74,6 +74,8 @@ fn hist_push(s: String) { HIST.with(|h| h.borrow_mut().push(s)); }
 fn hist_show() -> String { HIST.with(|h| h.borrow().join("; ")) }
 
 const LOW_FREQUENCY_BUMP_INTERVAL: u32 = 15;
+/// candidate finding (see tools/cfg/C06.py `findings`): every oracle message of a scenario that ran into it carries this text
+const KF1: &str = "KF-C06-1 justice claim lost after its parent transaction was re-confirmed at a LOWER height through the Confirm interface (transaction_unconfirmed, then transactions_confirmed before best_block_updated): the re-confirmation is ignored as already registered, claimable_outpoints keeps the old higher creation height, and the next best_block_updated below it drops the claim although the parent is confirmed";
 /// `on_counterparty_tx_csv` of the test channel configs (`our_to_self_delay` = BREAKDOWN_TIMEOUT)
 const CSV: u32 = lightning::ln::channelmanager::BREAKDOWN_TIMEOUT as u32;
 
@@ -102,6 +104,8 @@ struct Ctx {
 	spendable: BTreeMap<OutPoint, u64>, to_remote: BTreeMap<OutPoint, u64>,
 	/// transactions that have had ANTI_REORG_DELAY confirmations at some point: final (the library's re-org assumption), never disconnected again
 	final_txs: BTreeSet<Txid>,
+	/// highest height at which each of the cheater's transactions was ever confirmed / those now confirmed lower than that
+	max_conf: BTreeMap<Txid, u32>, kf1: bool,
 	fork_id: u32, stream: Stream, oracle: Vec<String>, soft: Vec<String>, soft_kinds: BTreeSet<&'static str>, classes: Vec<String>, stale_seen: u32,
 }
 
@@ -114,8 +118,8 @@ impl Ctx {
 	fn name(&self, op: &OutPoint) -> String { self.tag(op).map(|t| Self::show_tag(&t)).unwrap_or_else(|| format!("{}", op)) }
 	fn is_victim_tx(&self, id: &Txid) -> bool { self.bcast.iter().any(|(_, t)| t.compute_txid() == *id) }
 	/// recorded once per kind; the scenario goes on (what finally matters is whether the output is recovered)
-	fn fail_soft(&mut self, kind: &'static str, what: String) { if self.soft_kinds.insert(kind) { let m = format!("{} — history (seed {}, {}): {}", what, self.seed, self.style, hist_show()); self.soft.push(m); } }
-	fn fail(&mut self, what: String) { let m = format!("{} — history (seed {}, {}): {}", what, self.seed, self.style, hist_show()); if self.oracle.len() < 6 { self.oracle.push(m); } }
+	fn fail_soft(&mut self, kind: &'static str, what: String) { let what = if self.kf1 { format!("{}: {}", KF1, what) } else { what }; if self.soft_kinds.insert(kind) { let m = format!("{} — history (seed {}, {}): {}", what, self.seed, self.style, hist_show()); self.soft.push(m); } }
+	fn fail(&mut self, what: String) { let what = if self.kf1 { format!("{}: {}", KF1, what) } else { what }; let m = format!("{} — history (seed {}, {}): {}", what, self.seed, self.style, hist_show()); if self.oracle.len() < 6 { self.oracle.push(m); } }
 	/// model token of a transaction in a block: `C`, `S<k>`, `J<op>+<op>…`
 	fn tx_tok(&self, t: &Transaction) -> String {
 		let id = t.compute_txid();
@@ -150,7 +154,7 @@ impl Ctx {
 		let node = &net.nodes[0];
 		let v: Vec<Transaction> = node.tx_broadcaster.txn_broadcasted.lock().unwrap().drain(..).collect();
 		let (tip, conf, spent) = chain_view(node);
-		for (id, h) in conf.iter() { if *h + ANTI_REORG_DELAY - 1 <= tip { self.final_txs.insert(*id); } }
+		for (id, h) in conf.iter() { if *h + ANTI_REORG_DELAY - 1 <= tip { self.final_txs.insert(*id); } let e = self.max_conf.entry(*id).or_insert(*h); if *h > *e { *e = *h; } }
 		for t in v {
 			if std::env::var("C06_DEBUG").is_ok() { eprintln!("h={} bcast {} in={:?} out={:?}", tip, t.compute_txid(), t.input.iter().map(|i| self.name(&i.previous_output)).collect::<Vec<_>>(), t.output.iter().map(|o| o.value.to_sat()).collect::<Vec<_>>()); }
 			// the victim's OWN latest commitment: broadcast (legitimately) when a reload finds the channel closed while the reorg has
@@ -191,6 +195,8 @@ impl Ctx {
 		for (x, ph) in self.revocable(&conf) {
 			if spent.contains_key(&x) { continue; }
 			let parked = locktimed.iter().any(|l| l.0 == x);
+			// the signature of KF-C06-1: txonly style, the parent is now confirmed below an earlier confirmation, the claim is gone
+			if self.lax && !parked && claimable.iter().find(|c| c.0 == x).map(|c| !c.2).unwrap_or(true) && self.max_conf.get(&x.txid).map(|m| *m > ph).unwrap_or(false) { self.kf1 = true; }
 			match claimable.iter().find(|c| c.0 == x) {
 				None => { if !parked { self.fail_soft("no-claim", format!("revoked output {} of confirmed tx {} (height {}) is unspent on the best chain (tip {}) but no claim for it is pending", self.name(&x), x.txid, ph, tip)); continue; } },
 				Some((_, created, pending)) => {
@@ -462,7 +468,7 @@ fn justice_scenario(seed: u64, thorough: bool, index: u64) -> Result<Outcome, St
 	let outs_tok = list_or_dash(me.outs.iter().map(|(v, k)| format!("{}:{}", v, k)).collect(), ",");
 	let spends_of = |t: &Transaction| t.input.iter().filter(|i| i.previous_output.txid == revoked_txid).map(|i| i.previous_output.vout.to_string()).collect::<Vec<_>>().join("+");
 	let mut cx = Ctx { seed, style: format!("{:?}", style), chan_id, lax, disconnected_once: false, funding: revoked_tx.input[0].previous_output, revoked_txid, me: me.clone(), cand: cand.clone(), cand_ids,
-		prevouts, bcast: vec![], evicted: 0, last_issue: BTreeMap::new(), last_fee: BTreeMap::new(), spendable: BTreeMap::new(), to_remote: BTreeMap::new(), final_txs: BTreeSet::new(), fork_id: 0,
+		prevouts, bcast: vec![], evicted: 0, last_issue: BTreeMap::new(), last_fee: BTreeMap::new(), spendable: BTreeMap::new(), to_remote: BTreeMap::new(), final_txs: BTreeSet::new(), max_conf: BTreeMap::new(), kf1: false, fork_id: 0,
 		stream: Stream::default(), oracle: vec![], soft: vec![], soft_kinds: BTreeSet::new(), classes: vec![], stale_seen: 0 };
 	hist_push(format!("{:?}: {} channel, revoked commitment {} ({} outputs: {}), {} second-stage txs held by the cheater, tip {}", style, if anchors { "anchor" } else { "legacy" }, me.n, me.outs.len(), outs_tok, cand.len(), net.nodes[victim].best_block_info().1));
 	// the chain model starts here: `chain <tip> <n> <outs> <every second-stage tx: the commitment outputs it spends>`
@@ -505,10 +511,11 @@ fn justice_scenario(seed: u64, thorough: bool, index: u64) -> Result<Outcome, St
 				let gone: BTreeSet<OutPoint> = second.iter().flat_map(|t| t.input.iter().map(|i| i.previous_output)).collect();
 				let second_ids: Vec<Txid> = second.iter().map(|t| t.compute_txid()).collect();
 				let mut set_b: BTreeSet<(u8, u32, u32)> = set_a.iter().filter(|x| !gone.contains(&OutPoint { txid: revoked_txid, vout: x.2 })).cloned().collect();
-				let last_second = { let (_, conf, _) = chain_view(&net.nodes[victim]); second_ids.iter().filter_map(|i| conf.get(i).cloned()).max().unwrap_or(close_height + 1) };
-				let since: Vec<Transaction> = cx.bcast.iter().filter(|(h, _)| *h >= last_second).map(|(_, t)| t.clone()).collect();
-				for t in &since { for i in &t.input {
-					if gone.contains(&i.previous_output) { cx.fail(format!("victim re-claims {} after the cheater's second-stage spend of it was confirmed", i.previous_output)); continue; }
+				let (first_second, last_second) = { let (_, conf, _) = chain_view(&net.nodes[victim]); let hs: Vec<u32> = second_ids.iter().filter_map(|i| conf.get(i).cloned()).collect();
+					(hs.iter().min().cloned().unwrap_or(close_height + 1), hs.iter().max().cloned().unwrap_or(close_height + 1)) };
+				let since: Vec<(u32, Transaction)> = cx.bcast.iter().filter(|(h, _)| *h >= first_second).cloned().collect();
+				for (h, t) in &since { for i in &t.input {
+					if gone.contains(&i.previous_output) { if *h > last_second { cx.fail(format!("victim re-claims {} after the cheater's second-stage spend of it was confirmed", i.previous_output)); } continue; }
 					if i.previous_output.txid == revoked_txid { set_b.insert((0, 0, i.previous_output.vout)); }
 					else if let Some(k) = second_ids.iter().position(|x| *x == i.previous_output.txid) { set_b.insert((1, k as u32, i.previous_output.vout)); } } }
 				let sec_tok = second.iter().map(|t| spends_of(t)).collect::<Vec<_>>().join(",");
